@@ -34,10 +34,16 @@ Byte(src, i) == IF i < 0 \/ i >= src.sz THEN 0
 
 \* ---- the mathematical meaning ---------------------------------------------------------------------
 RangeLen(src, off, len) == IF len = -1 THEN src.sz - off ELSE len
+\* sum of the n bytes from index off on.  Two nested recursions (64 bytes at a time) rather than one, so
+\* that the depth of TLC's evaluation stack stays small for kilobyte buffers.
 ByteSum(src, off, n) ==
-    LET RECURSIVE S(_, _)
-        S(i, acc) == IF i >= n THEN acc ELSE S(i + 1, acc + Byte(src, off + i))
-    IN S(0, 0)
+    LET RECURSIVE Block(_, _, _)
+        Block(i, to, acc) == IF i >= to THEN acc ELSE Block(i + 1, to, acc + Byte(src, i))
+        RECURSIVE Blocks(_, _)
+        Blocks(i, acc) == IF i >= off + n THEN acc
+                          ELSE LET to == IF i + 64 < off + n THEN i + 64 ELSE off + n
+                               IN Blocks(to, acc + Block(i, to, 0))
+    IN Blocks(off, 0)
 Expected(src, off, len) == ByteSum(src, off, RangeLen(src, off, len)) % 256
 
 \* the call is inside the function's domain: the range lies in the buffer
